@@ -24,7 +24,9 @@ ID = 'C03'
 LEVEL = 'exploration'
 RULE = ('One run = one abstract acyclic workbook (1-3 books x 1-3 sheets, <=14 '
         'cells, constants / formulas / array formulas / defined names / '
-        'cross-sheet and cross-book references) executed along 4-6 seeded '
+        'cross-sheet and cross-book references, reference unions / '
+        'intersections, real externalLink parts, whole rows in ~6 % and whole '
+        'columns in ~0.2 % of the runs) executed along 4-6 seeded '
         'schedules (dictionary with shuffled item order | files via loads in a '
         'shuffled book+sheet order | root book with lazy completion | per-book '
         'loader actors interleaved | re-import of a file model\'s export; '
